@@ -11,7 +11,9 @@
 (*                        extracted + skipped = source                                             *)
 (*   SkippedOnlyByOption  a file is left out only for a reason an option names                     *)
 (*   VerifyMeansEqual     verify = TRUE and Ok  =>  comparing source and target finds no difference*)
-(* The implementation's deviations are named alternative actions (CodeNext):                       *)
+(* The deviations the implementation had before the fix commits 485ce03 / 323d4e2 are kept as     *)
+(* named alternative actions (CodeNext) so that TLC keeps refuting that behaviour; the code as it  *)
+(* is now follows DesignNext:                                                                      *)
 (*   EnumerateAnonymous          a source with HET/BET tables (V3/V4) is enumerated through         *)
 (*                               list_all_with_hashes(): placeholder names file_%08d.dat  F-C07-a  *)
 (*   ExtractReadFailContinue     a file that cannot be read is dropped with a log line             *)
